@@ -280,6 +280,54 @@ func ruleNegate(c *Ctx) {
 				fmt.Sprintf("-%s is computed from a caller-supplied integer with no lower bound on the path: for math.MinInt64 the negation overflows and stays negative, so a range test written with it accepts the value; the operation is logged and the applier that replays it at Commit indexes out of range (panic with the write lock held)", prm.Name()))
 		})
 	}
-	c.Sites += n
-	c.ok("exported functions", "negations of integer arguments examined", "", fmt.Sprintf("%d negations", n))
+	// the data-structure packages negate counts too (List.LRemNum, List.LRem): where the callee establishes no lower
+	// bound itself, every call from the main package that forwards the caller's own integer argument must sit under one
+	m := 0
+	for _, g := range c.P.SrcFuncs {
+		if g.Pkg == c.P.Main || !c.P.inModule(g) || g.Object() == nil || !g.Object().Exported() || len(g.Blocks) == 0 {
+			continue
+		}
+		for pi, prm := range g.Params {
+			if !isIntegerType(prm.Type()) {
+				continue
+			}
+			unbounded := false
+			instrs(g, func(in ssa.Instruction) {
+				u, ok := in.(*ssa.UnOp)
+				if !ok || u.Op != token.SUB || u.X != ssa.Value(prm) {
+					return
+				}
+				edges := lowerBoundedEdges(g, prm)
+				if !(len(edges) > 0 && edgesDominate(g, edges, u.Block())) {
+					unbounded = true
+				}
+			})
+			if !unbounded {
+				continue
+			}
+			k := 0
+			for _, site := range c.P.CallersOf(g) {
+				caller := site.Parent()
+				if caller.Pkg != c.P.Main {
+					continue
+				}
+				args := site.Common().Args
+				if pi >= len(args) {
+					continue
+				}
+				a, ok := stripConv(args[pi]).(*ssa.Parameter)
+				m++
+				if !ok || a.Parent() != caller {
+					continue // a count decoded from the log was validated when it was logged
+				}
+				k++
+				c.touch(caller)
+				edges := lowerBoundedEdges(caller, a)
+				c.check(len(edges) > 0 && edgesDominate(caller, edges, site.Block()), fnName(caller), fmt.Sprintf("argument %s reaches the negation in %s under an established lower bound", a.Name(), fnName(g)), c.P.ipos(site), "",
+					fmt.Sprintf("%s negates its argument with no lower bound of its own, and this call forwards the caller-supplied %s without one: for math.MinInt64 the negation overflows and stays negative, the count is accepted and logged, and the applier that replays the record at Commit indexes out of range (panic with the write lock held)", fnName(g), a.Name()))
+			}
+		}
+	}
+	c.Sites += n + m
+	c.ok("exported functions", "negations of integer arguments examined", "", fmt.Sprintf("%d negations in the main package, %d calls into data-structure functions that negate an argument", n, m))
 }
